@@ -471,3 +471,9 @@ pub fn can_cast_literal(ty1: &Type, ty_lit: &Type) -> bool {
         _ => false,
     }
 }
+
+// Verification hook (built only with `--cfg oq3_verif`): expose the crate-private comparison.
+#[cfg(oq3_verif)]
+pub fn verif_equal_up_to_constness(ty1: &Type, ty2: &Type) -> bool {
+    equal_up_to_constness(ty1, ty2)
+}
